@@ -13,6 +13,9 @@ def run(ses):
     from pyvc.harness import run_cases
 
     run_cases(ses, "props.arraychain", "case_getitem", [("IU2", "slice_sym", "slice_none"), ("C*8", "slice_sym", "slice_none")])
+    from props import arraychain as _ac
+
+    _ac.resolve_limits(ses)
     ses.trust(*TRUST[:4], "xarray computes nbytes / repr from `.dtype` / `.shape` of a BackendArray (T6)")
 
 
